@@ -707,8 +707,20 @@ def translate(force=False):
     srcs = [s for s in srcs if not s.endswith("/Utils.c")]
     with cf.ThreadPoolExecutor(max_workers=16) as ex:
         files = list(ex.map(extract_file, srcs))
+    # Utils.c: hand-modelled, but its objects with static storage are listed like everyone's
+    utils = {"statics": [], "functions": []}
+    up = os.path.join(REPO, "src", "avtp", "Utils.c")
+    tu = cast.TU(up, REPO)
+    for f, n in tu.top:
+        if n.get("kind") == "VarDecl" and f == up:
+            q = n["type"]["qualType"]
+            utils["statics"].append({"name": n["name"], "type": q, "const": q.startswith("const "), "where": "file"})
+    for f, n, body in cast.functions_with_bodies(tu, ""):
+        if f == up:
+            utils["functions"].append(n["name"])
+            collect_local_statics(n, body, utils["statics"])
     gen = {"source_hash": sh, "repo": REPO, "probe": PROBE, "probe_per_header": per_header,
-           "files": files}
+           "files": files, "utils": utils}
     import emit
     emit.emit_lean(gen, GEN_LEAN)
     json.dump(gen, open(gj, "w"), indent=1)
